@@ -1,6 +1,7 @@
 import ArrProofs.Lemmas.C01Machine
 import ArrProofs.Lemmas.C01Ext
 import ArrProofs.Lemmas.C01Diff
+import ArrProofs.Lemmas.GenCore
 /-!
 # C01 — shape and element count never disagree on any result of any operation chain
 
@@ -486,5 +487,43 @@ example : StoreWF (run [.new 24 0 [2, 3, 4], .moveaxis 0 [0] [2], .arraySplit 1 
 /-- the empty array and unit axes are inside the quantifier -/
 example : (Arr.new ([] : List Int) [2, 0, 3]).isOk = true ∧ (⟨[], [2, 0, 3]⟩ : A).WF ∧ (⟨[], [2, 0, 3]⟩ : A).isEmpty = true := by
   decide
+
+/-! ## the validating funnel as REGENERATED FROM THE RUST SOURCE on every run
+`tools/rs2lean.py` translates `Array::new`, `create`, `single`, `flat`, `empty`, `FromIterator::from_iter`, `reshape` and the
+getters construct by construct into `ArrModel/Gen/Core.lean`; these theorems are about those generated definitions (their
+equivalence with the hand model is `ArrProofs/Lemmas/GenCore.lean`), so a change of the Rust funnel changes what has to be
+proved here. -/
+
+open ArrModel.Gen.Core in
+/-- `Array::new` as written in `create.rs` today: Ok exactly when the element list fits the shape - and then the very array
+`{elements, shape}`, which is consistent -, the error value `ShapeMustMatchValuesLength` otherwise, never a panic -/
+theorem gen_new_funnel {α : Type} (e : List α) (s : List Nat) :
+    (∀ r, Array_new e s = .ok r ↔ s.prod = e.length ∧ r = ⟨e, s⟩) ∧ (∀ r, Array_new e s = .ok r → r.WF) ∧
+    (s.prod ≠ e.length → Array_new e s = .err .ShapeMustMatchValuesLength) ∧ Array_new e s ≠ .panic :=
+  ⟨c01_gen_new_ok_iff e s, c01_gen_new_wf e s, c01_gen_new_err e s, c01_gen_new_never_panics e s⟩
+
+open ArrModel.Gen.Core in
+/-- every other constructor of `create.rs` / `iter.rs` and `reshape` of `manipulate.rs`, as written today, answers only with a
+consistent array holding exactly the given elements -/
+theorem gen_constructors_wf {α : Type} (e : List α) (s : List Nat) (nd : Option Nat) (x : α) (a : Arr α) :
+    (∀ r, Array_create e s nd = .ok r → r.WF) ∧
+    (∃ r, Array_single x = .ok r ∧ r.WF ∧ r.elems = [x] ∧ r.shape = [1]) ∧
+    (∃ r, Array_flat e = .ok r ∧ r.WF ∧ r.elems = e ∧ r.shape = [e.length]) ∧
+    (∃ r : Arr α, Array_empty = .ok r ∧ r.WF ∧ r.elems = [] ∧ r.shape = [0]) ∧
+    (∃ r, Array_from_iter e = .ok r ∧ r.WF ∧ r.elems = e ∧ r.shape = [e.length]) ∧
+    (∀ r, Array_reshape a s = .ok r → r.WF ∧ r.elems = a.elems ∧ r.shape = s) :=
+  ⟨c01_gen_create_wf e s nd, c01_gen_single_wf x, c01_gen_flat_wf e, c01_gen_empty_wf, c01_gen_from_iter_wf e,
+   fun r h => c01_gen_reshape_wf a r s h⟩
+
+open ArrModel.Gen.Core in
+/-- the getters of `meta.rs` as written today: `len` is the element count (= the product of the shape on a consistent array),
+`ndim` the length of the shape, `is_empty` holds exactly when the product of the shape is 0 -/
+theorem gen_meta_agree {α : Type} (a : Arr α) (hwf : a.WF) :
+    Array_len a = .ok a.shape.prod ∧ Array_ndim a = .ok a.shape.length ∧ Array_is_empty a = .ok (a.shape.prod == 0) ∧
+    Array_get_elements a = .ok a.elems ∧ Array_get_shape a = .ok a.shape :=
+  ⟨c01_gen_len a hwf, c01_gen_ndim a, c01_gen_is_empty a hwf, (c01_gen_get a).1, (c01_gen_get a).2⟩
+
+example : ArrModel.Gen.Core.Array_new [1, 2, 3] [2, 2] = .err .ShapeMustMatchValuesLength ∧
+    ArrModel.Gen.Core.Array_new [1, 2, 3, 4] [2, 2] = .ok ⟨[1, 2, 3, 4], [2, 2]⟩ := by decide
 
 end ArrModel.C01
